@@ -110,6 +110,7 @@ const (
 	sDo
 	sIf
 	sFor
+	sForIn // for X in upto(n), nil, 0, <closing value> do ... end
 	sWhile
 	sBreak
 	sGoto
@@ -164,9 +165,10 @@ function mkc(k, mode, arg)
     end
   end})
 end
+function upto(n) return function(_, i) if i < n then return i + 1 end end end
 `
 
-const simPreludeLines = 11
+const simPreludeLines = 12
 const simCloseRaiseLine = 6 // line of error("ce"..k) in the prelude
 
 type renderer struct {
@@ -285,6 +287,10 @@ func (r *renderer) stmt(s *stmt) {
 		s.end = r.ln("end")
 	case sFor:
 		s.line = r.ln(fmt.Sprintf("for %s = 1, %d do", s.name, s.n))
+		r.block(s.body)
+		s.end = r.ln("end")
+	case sForIn:
+		s.line = r.ln(fmt.Sprintf("for %s in upto(%d), nil, 0, %s do", s.name, s.n, renderExpr(s.exps[0])))
 		r.block(s.body)
 		s.end = r.ln("end")
 	case sWhile:
